@@ -582,7 +582,14 @@ int json_object_object_add_ex(struct json_object *jso, const char *const key,
 		    (opts & JSON_C_OBJECT_ADD_CONSTANT_KEY) ? (const void *)key : strdup(key);
 		if (k == NULL)
 			return -1;
-		return lh_table_insert_w_hash(JC_OBJECT(jso)->c_object, k, val, hash, opts);
+		if (lh_table_insert_w_hash(JC_OBJECT(jso)->c_object, k, val, hash, opts) != 0)
+		{
+			/* the table did not take ownership of our copy of the key */
+			if (!(opts & JSON_C_OBJECT_ADD_CONSTANT_KEY))
+				free((void *)(uintptr_t)k);
+			return -1;
+		}
+		return 0;
 	}
 	existing_value = (json_object *)lh_entry_v(existing_entry);
 	if (existing_value)
